@@ -57,7 +57,7 @@ _PROP = re.compile(r'^Error: Action property (\w+) is violated')
 _POST = re.compile(r'POSTCONDITION|post-condition', re.I)
 
 
-def run_apalache(module, inv, tmpdir, cinit='CInit', length=0, timeout=900):
+def run_apalache(module, inv, tmpdir, cinit='CInit', length=0, timeout=900, init=None):
     """Symbolic check (Apalache, SMT over unbounded integers) of spec/<module>.tla: invariant `inv` in all states reachable within
     `length` steps from every constant valuation allowed by `cinit`.  Returns 'NoError' | 'Error' (a counterexample exists);
     anything else is a machinery failure."""
@@ -65,8 +65,10 @@ def run_apalache(module, inv, tmpdir, cinit='CInit', length=0, timeout=900):
     for f in os.listdir(SPEC_DIR):
         if f.endswith('.tla'):
             shutil.copy(os.path.join(SPEC_DIR, f), work)
-    cmd = ['apalache-mc', 'check', '--cinit=' + cinit, '--inv=' + inv, '--length=%d' % length,
-           '--out-dir=' + os.path.join(work, 'out'), os.path.join(work, module + '.tla')]
+    cmd = ['apalache-mc', 'check', '--cinit=' + cinit, '--inv=' + inv, '--length=%d' % length]
+    if init:
+        cmd.append('--init=' + init)
+    cmd += ['--out-dir=' + os.path.join(work, 'out'), os.path.join(work, module + '.tla')]
     e = dict(os.environ)
     e.setdefault('JVM_ARGS', '-Xmx2g')
     try:
